@@ -74,12 +74,12 @@ def retag (clusters : List Nat) (toks : List (Nat × Nat)) : List (Nat × Nat) :
 
 /-- `MaConfig::parse`: tree stream (6 contexts) then the sample decoder header.
 `sections` = the sample tokens `(cluster, value)` of every stream that uses this tree. -/
-def writeMaConfig (w : BW) (mode : EntMode) (t : Tree) (sections : List (List (Nat × Nat))) : BW × Coder :=
+def writeMaConfig (w : BW) (mode : EntMode) (t : Tree) (sections : List (Nat × List (Nat × Nat))) : BW × Coder :=
   let (toks, clusters) := treeTokens t
-  let treeMode : EntMode := if mode == 3 then 1 else if mode == 4 then 2 else mode
-  let tc := mkCoder treeMode 6 [0, 1, 2, 3, 4, 5] [toks]
-  let w := tc.section (tc.header w) toks
-  let sc := mkCoder mode clusters.length clusters (sections.map (retag clusters))
+  let treeMode : EntMode := if mode == 3 ∨ mode == 5 then 1 else if mode == 4 ∨ mode == 6 then 2 else mode
+  let tc := mkCoder treeMode 6 [0, 1, 2, 3, 4, 5] [(0, toks)]
+  let w := tc.section (tc.header w) 0 toks
+  let sc := mkCoder mode clusters.length clusters (sections.map fun (m, s) => (m, retag clusters s))
   (sc.header w, sc)
 
 /-- `ModularHeader` -/
@@ -90,7 +90,7 @@ def writeModularHeader (w : BW) (useGlobalTree : Bool) (wp : Wp) (ts : List Tran
   ts.foldl writeTransform w
 
 /-- one section's sample tokens `(cluster, value)` -/
-def writeSamples (w : BW) (sc : Coder) (clusters : List Nat) (toks : List (Nat × Nat)) : BW :=
-  sc.section w (retag clusters toks)
+def writeSamples (w : BW) (sc : Coder) (clusters : List Nat) (mult : Nat) (toks : List (Nat × Nat)) : BW :=
+  sc.section w mult (retag clusters toks)
 
 end Jxl.Enc
